@@ -3,7 +3,9 @@
    in ghost variables.  These are definitional stubs (trusted), not verified code. */
 #ifndef DATAARRAY_H
 #define DATAARRAY_H
-typedef struct { NDSize extent; } DataArray;
+typedef struct { NDSize extent; bool is_none; } DataArray;     /* is_none: uninitialised handle (nix::none) */
+static inline bool DataArray_isNone(const DataArray *self)
+{ return self->is_none; }
 static inline NDSize DataArray_dataExtent(const DataArray *self)
 { return self->extent; }
 
